@@ -17,6 +17,7 @@ FMT[180] = "reg2imm2"
 for o in range(190, 231): FMT[o] = "reg3"
 VALID = sorted(FMT)
 TERM = {0, 1, 40, 50, 180} | set(range(80, 91)) | set(range(170, 176))
+NOJUMPIND = [o for o in sorted(FMT) if o not in (50, 180)]
 LOADSTORE = set(range(30, 34)) | set(range(52, 63)) | set(range(70, 74)) | set(range(120, 131))
 
 U64 = 1 << 64
@@ -83,7 +84,7 @@ class Asm:
         return len(self.code)
 
 
-def operands_for(rng, op, here, targets, mem_bias=True, full=True):
+def operands_for(rng, op, here, targets, mem_bias=True, full=True, forward=False):
     """Operand bytes for opcode op at position `here`.  full=True: the natural encoding (declared lengths
     match the bytes present); full=False: random skip / length selectors (including selectors larger than
     the bytes present, >4, and 0)."""
@@ -97,6 +98,8 @@ def operands_for(rng, op, here, targets, mem_bias=True, full=True):
             t = rng.pick(targets)
         else:
             t = here + rng.pick([-300, -1, 0, 1, 2, 3, 5, 300, 70000])
+        if forward and t <= here:
+            t = here + 1 + (here - t)          # loop-free programs: only forward targets
         d = t - here
         return le(d, n)
     addr = "addr" if (op in LOADSTORE and mem_bias) else "any"
@@ -171,7 +174,7 @@ def base_state(rng, gas=None, heap=True):
             "gas": gas if gas is not None else rng.pick([0, 1, 2, 3, 5, 8, 13, 30, 60]), "pc": 0}
 
 
-def random_program(rng, clean=True, n_instr=None, ops=None):
+def random_program(rng, clean=True, n_instr=None, ops=None, forward=False):
     """clean: every basic block ends in a terminator inside the code, only valid opcodes at instruction
     starts, natural operand encodings, and the code ends with `trap` followed by padding so that no operand
     read reaches past the end of the code."""
@@ -192,7 +195,7 @@ def random_program(rng, clean=True, n_instr=None, ops=None):
         a = Asm()
         for op in plan:
             here = a.here()
-            ops_b = operands_for(rng, op, here, targets, full=clean or rng.n(3) != 0)
+            ops_b = operands_for(rng, op, here, targets, full=clean or rng.n(3) != 0, forward=forward)
             pad = 0 if clean or rng.n(4) else rng.n(4)
             a.emit(op, ops_b, pad)
         if rnd == 0:
